@@ -15,6 +15,7 @@ import (
 	"os/exec"
 	"sort"
 	"strings"
+	"time"
 )
 
 // ---------- deterministic PRNG (splitmix64); every random choice derives from one seed ----
@@ -283,10 +284,17 @@ func Run(e *Engine, tier string, seed uint64, driver string, knownPath string, r
 	}
 	res.Evaluations = len(cases)
 
-	// implementation
+	// implementation (with a watchdog: a call that never returns is a deadlock / livelock)
 	impl := make([][]string, len(cases))
 	for i, c := range cases {
-		impl[i] = e.RunImpl(c)
+		out, ok := runWithTimeout(e, c, 60*time.Second)
+		if !ok {
+			res.Failures = append(res.Failures, Failure{Kind: "oracle", What: "the implementation does not return (deadlock or livelock) while running this case",
+				Signature: e.ID + ":hang", Case: c.Lines, FromTag: c.Tag, Known: known.Has(e.ID, e.ID+":hang")})
+			res.Evaluations = i + 1
+			return res
+		}
+		impl[i] = out
 		res.Lines += len(c.Lines)
 	}
 	// model
@@ -410,6 +418,17 @@ func Run(e *Engine, tier string, seed uint64, driver string, knownPath string, r
 	}
 	sort.SliceStable(res.Failures, func(i, j int) bool { return res.Failures[i].Kind > res.Failures[j].Kind })
 	return res
+}
+
+func runWithTimeout(e *Engine, c Case, d time.Duration) ([]string, bool) {
+	ch := make(chan []string, 1)
+	go func() { ch <- e.RunImpl(c) }()
+	select {
+	case out := <-ch:
+		return out, true
+	case <-time.After(d):
+		return nil, false
+	}
 }
 
 func get(a []string, i int) string {
